@@ -34,3 +34,16 @@ impl Variables {
         self.0.contains_key(name)
     }
 }
+
+#[cfg(abasic_verif)]
+impl Variables {
+    pub(crate) fn verif_entries(&self) -> Vec<(String, crate::verif_probe::VerifValue)> {
+        let mut entries = self
+            .0
+            .iter()
+            .map(|(name, value)| (name.to_string(), value.verif_value()))
+            .collect::<Vec<_>>();
+        entries.sort_by(|a, b| a.0.cmp(&b.0));
+        entries
+    }
+}
